@@ -524,6 +524,9 @@ def errOf (e : String) : Err :=
   else if e = "NotEnoughSignaturesErr" then .notEnoughSignatures
   else if e = "EmptyPubkeysErr" then .emptyPubkeys
   else if e = "DuplicateSignaturesErr" then .duplicateSignatures
+  else if e = "InvalidPreimageErr" then .invalidPreimage
+  else if e = "InvalidHashErr" then .invalidHash
+  else if e = "NoSignaturesErr" then .noSignatures
   else .badPublicKey
 
 def tagsOf (t : P2PKTags) : Tags :=
@@ -1060,6 +1063,79 @@ theorem VerifyP2PKLockedProof_eq (env : Env) (extU : String → P2PKWitness → 
           · have hN' : ¬ t.NSigs.toNat > 0 := by omega
             simp only [hN, hN', decide_false, Bool.false_eq_true, if_false, false_and]
             split <;> split <;> (try split) <;> (try split) <;> (try split) <;> simp_all [absErr, errOf]
+
+/-! ## cashu/nuts/nut14: VerifyHTLCProof (C13) -/
+
+/-- `hex.DecodeString` as the model has it (`Spend.hexDecode`) -/
+def extHexD : String → List UInt8 × Option String :=
+  fun s => match hexDecode s with
+    | some b => (b, none)
+    | none => ([], some "encoding/hex")
+
+/-- the regenerated `nut14.VerifyHTLCProof` IS the model's `verifyHTLC` -/
+theorem VerifyHTLCProof_eq (env : Env) (extU : String → HTLCWitness → HTLCWitness) (sh : String → List UInt8)
+    (extP : String → Signature × Option String) (extV : Signature → List UInt8 → PublicKey → Bool)
+    (shaB : List UInt8 → List UInt8) (hexE : List UInt8 → String)
+    (enc : String → Sig) (henc : Function.Injective enc) (proof : Gen.Code.Proof) (secret : WellKnownSecret)
+    (mp : Spend.Proof) (k : Kind)
+    (hsig : mp.witness.signatures = (extU proof.Witness default).Signatures.map enc)
+    (hpre : mp.witness.preimage = (extU proof.Witness default).Preimage)
+    (hsha : ∀ b, hexE (shaB b) = env.sha256hex b)
+    (hv : ∀ s key, env.valid (enc s) key mp.msg = ((extP s).2.isNone && extV (extP s).1 (sh proof.Secret) key)) :
+    absErr (nut14_VerifyHTLCProof extU extPI (extPK env) env.now sh extP extV extHexD shaB hexE proof secret) =
+      verifyHTLC env mp { kind := k, data := secret.Data.Data, tags := secret.Data.Tags } := by
+  unfold nut14_VerifyHTLCProof verifyHTLC
+  have hpe := ParseP2PKTags_eq env secret.Data.Tags
+  have hwf := ParseP2PKTags_wf env secret.Data.Tags
+  rcases hr : nut11_ParseP2PKTags extPI (extPK env) secret.Data.Tags with ⟨ot, oe⟩
+  rw [hr] at hpe hwf
+  cases oe with
+  | some e =>
+    simp only [absRes] at hpe
+    simp only [← hpe, Option.isNone_some, Bool.not_false, if_true]
+    rfl
+  | none =>
+    cases ot with
+    | none => simp at hwf
+    | some t =>
+      simp only [absRes] at hpe
+      simp only [← hpe, Option.isNone_none, Bool.not_true, Bool.false_eq_true, if_false, Option.getD_some]
+      generalize hS : (extU proof.Witness default).Signatures = sigs at *
+      rw [hsig, hpre]
+      have hHV : ∀ (n : Int) keys, 0 < n → nut11_HasValidSignatures extP extV (sh proof.Secret) sigs n keys =
+          hasValidSignatures env.valid mp.msg (sigs.map enc) n.toNat keys := by
+        intro n keys hn
+        rw [HasValidSignatures_eq extP extV _ sigs n keys env.valid mp.msg enc hv, hvs_cast _ _ hn]; rfl
+      have hdup := dupSigs_enc enc henc sigs
+      have hlen : decide (Int.ofNat sigs.length < 1) = decide ((sigs.map enc).length < 1) := by
+        simp only [List.length_map, Int.ofNat_eq_natCast]
+        congr 1; apply propext; omega
+      simp only [hHV 1 _ (by decide), hdup, hlen, ofNat_beq_zero]
+      unfold expired tagsOf checkPreimage
+      simp only
+      by_cases hexp : (decide (t.Locktime > 0) && decide (env.now > t.Locktime)) = true
+      · simp only [hexp, if_true]
+        split <;> split <;> (try split) <;> (try split) <;> simp_all [absErr, errOf]
+      · simp only [hexp, if_false, Bool.false_eq_true]
+        unfold extHexD
+        cases hd : hexDecode (extU proof.Witness default).Preimage with
+        | none => simp [absErr, errOf]
+        | some bytes =>
+          simp only [Option.isNone_none, Bool.not_true, Bool.false_eq_true, if_false, hsha]
+          have h64 : (Int.ofNat secret.Data.Data.utf8ByteSize != 64) = decide (secret.Data.Data.utf8ByteSize ≠ 64) := by
+            by_cases h : secret.Data.Data.utf8ByteSize = 64
+            · simp [h]
+            · have : ¬ ((secret.Data.Data.utf8ByteSize : Int) = 64) := by omega
+              simp [h, this]
+          simp only [h64]
+          by_cases hN : t.NSigs > 0
+          · have hN' : t.NSigs.toNat > 0 := by omega
+            simp only [hHV t.NSigs _ hN]
+            simp only [hN, hN', decide_true, if_true]
+            split <;> split <;> (try split) <;> (try split) <;> (try split) <;> simp_all [absErr, errOf]
+          · have hN' : ¬ t.NSigs.toNat > 0 := by omega
+            simp only [hN, hN', decide_false, Bool.false_eq_true, if_false]
+            split <;> split <;> (try split) <;> (try split) <;> simp_all [absErr, errOf]
 
 end ParseTags
 
